@@ -150,6 +150,9 @@ var seedExpectations = []seedExpect{
 	{"template-close", "C08", "template.close", "typeSpec"},
 	{"type-error-dropped", "C11", "errflow.nilonly", "lowerLocalConst"},
 	{"sample-offset-dropped", "C09", "sample.offsetkept", "lowerTextureSampleCompare"},
+	{"stale-type-tables", "C09", "phase.stalehandles", "buildGlobalExprFromAST"},
+	{"stale-type-tables", "C10", "phase.stalehandles", "coerceScalarToType"},
+	{"stale-type-tables", "C09", "handle.zerosentinel", "findScalarType"},
 }
 
 // overlayFromPatch materialises the files a unified diff touches, patches
